@@ -12,7 +12,7 @@ LANG = {"py": "Python", "js": "JavaScript", "java": "Java"}
 
 
 def run(ctx):
-    ctx.functions += ["Codebase.add_file/add_folder/aggregate", "LanguageTotals.add", "ScanTotals.total_*", "SourceFileEntry.__init__/profile", "SourceFolder.add_file/add_folder", "utils.make_profile/make_count_profile/merge_profiles/get_parent_folder/get_basename"]
+    ctx.functions += ["Scanner.scan_codebase (ScanTotals fed file by file)", "ScanResultTable", "Codebase.add_file/add_folder/aggregate", "LanguageTotals.add", "ScanTotals.total_*", "SourceFileEntry.__init__/profile", "SourceFolder.add_file/add_folder", "utils.make_profile/make_count_profile/merge_profiles/get_parent_folder/get_basename"]
     rnd = random.Random(ctx.seed)
     shapes = []
     for k in (1, 2, 3, 4):
@@ -37,4 +37,7 @@ def run(ctx):
             perms += [list(reversed(range(n))), list(range(1, n)) + [0]]
         sym = [0, n - 1] if n > 1 else [0]
         jobs.append(Job("c07.py", "h_codebase", {"paths": paths, "langs": [LANG[p.rsplit(".", 1)[1]] for p in paths], "sym": sym, "perms": perms}, T, 30, tag="+".join(paths), meta={"twin": len(jobs) < 4, "sigtag": "codebase"}))
+    # the totals a scan DISPLAYS while it runs (ScanTotals fed by scan_codebase) are those of the codebase being scanned - also for the second scan of a process
+    jobs.append(Job("c09.py", "h_step", {"pool": ["a.py", "d/a.py"], "ncont": 2}, T * 3, 60, tag="scan_command twice in one process: displayed totals == scanned codebase", meta={"sigtag": "displayed-totals", "twin": False}))
+    ctx.bounds["displayed totals"] = "the real scan_command (in-memory FS) from every (tree, cache) state of 2 paths x 2 contents, followed by a second scan in the same process"
     ctx.run_xh(jobs)
